@@ -12,6 +12,7 @@ import (
 	"sort"
 	"strings"
 	"testing"
+	"time"
 
 	"golang.org/x/perf/benchfmt"
 	"golang.org/x/perf/benchmath"
@@ -20,6 +21,25 @@ import (
 )
 
 // ---- C15 free-running pass (uninstrumented code, real goroutines, -race) ----
+
+// c15BodyTimed runs c15Body and reports a run that has not returned after two minutes (a run takes milliseconds):
+// the process is then wedged — typically a deadlock of the fan-out's own limiter — so the violation is reported and
+// the process ends at once.
+func c15BodyTimed(c *mc.Check, f *mc.Family, ds c15Dataset, what string) string {
+	done := make(chan string, 1)
+	go func() { done <- c15Body(ds) }()
+	select {
+	case out := <-done:
+		return out
+	case <-time.After(2 * time.Minute):
+		c.Fail(f, "hang", ds.Name, fmt.Sprintf("dataset %s, %s: benchstat's table computation has not returned after 2 minutes (GOMAXPROCS=%d)", ds.Name, what, runtime.GOMAXPROCS(0)))
+		f.Capped("a run did not return")
+		f.Done()
+		c.Finish()
+		os.Exit(1)
+	}
+	return ""
+}
 
 func c15Free(c *mc.Check, reps int) {
 	f := c.Family("free-running-race-pass", fmt.Sprintf("SAMPLING (not exhaustive): the uninstrumented Builder.ToTables + ToText + ToCSV built with -race and run with real goroutines for GOMAXPROCS ∈ {1,2,4,16} × %d datasets × %d repetitions, and × 4 datasets whose cells hold 1023, 1024, 1025 and 4097 values in three columns (a tenth of the repetitions); every run's bytes must equal the first run's and the bytes the controlled pass produced for the default schedule (ties the instrumented build to the real one); any data race report fails the process; non-trivial = every run", len(c15Datasets), reps), nil)
@@ -40,7 +60,7 @@ func c15Free(c *mc.Check, reps int) {
 		for _, gmp := range []int{1, 2, 4, 16} {
 			old := runtime.GOMAXPROCS(gmp)
 			for r := 0; r < reps; r++ {
-				out := c15Body(ds)
+				out := c15BodyTimed(c, f, ds, fmt.Sprintf("free run %d", r))
 				if first == "" {
 					first = out
 					if refDir != "" {
@@ -219,10 +239,10 @@ func c15Repeated(c *mc.Check) {
 		return
 	}
 	for _, ds := range append(append([]c15Dataset{}, c15Datasets...), c15LargeDatasets()[:2]...) {
-		first := c15Body(ds)
+		first := c15BodyTimed(c, f, ds, "repeated run 0")
 		for r := 1; r < 10; r++ {
 			f.Count(1, 1)
-			if out := c15Body(ds); out != first {
+			if out := c15BodyTimed(c, f, ds, fmt.Sprintf("repeated run %d", r)); out != first {
 				f.Outcome("differs", 1)
 				c.Fail(f, "repeated-run", ds.Name, fmt.Sprintf("dataset %s: run %d differs from run 0", ds.Name, r))
 			} else {
